@@ -1,12 +1,23 @@
 """C09 - grain refinement recovers orientation, cell and position from simulated data.
 
 specs: RefineFlow.tla (protocol of refinegrains: the grain translation travels through the global parameter object;
-       all interleavings of the public calls), TraceRefineFlow.tla (trace validation of real makemap runs + outcome).
+       all interleavings of the public calls; peak ownership explicit: the competing-owner rule of score_and_assign,
+       BestOwner / OrderIndependent), TraceRefineFlow.tla (trace validation of real runs: protocol + the assignment
+       action replayed call by call + outcome).
 Mode C: peaks are forward-simulated (c09_sim.py, validated by an independent forward model) from 1..5 strained,
-       displaced grains under a geometry configuration (flips, omegasign, tilts, wedge, chi); scripts/makemap.py's
-       makemap() is run on perturbed starting grains with omega as observed and floated; wrappers installed from the
-       harness record set_translation / compute_gv / gof / refine / score_and_assign / cImageD11.compute_gv; TLC
-       validates the call sequence against the protocol rules and the logged outcome against the bounds.
+       displaced grains under a geometry configuration (flips, omegasign, tilts, wedge, chi).  Families: 'random'
+       (independent orientations), 'subgrain' (a grain 6..20 mrad and 5..80 um away from another one) and 'twin'
+       (sigma-3 plus a few mrad): the last two PRODUCE peaks inside the hkl tolerance of two grains, at a strictly
+       larger error for the grain that did not produce them; these scenarios are run twice, with the grains listed
+       in two different orders in the ubi file.  Routes: scripts/makemap.py's makemap() and the refinegrains calls
+       of a user script (assignlabels / refineubis / refinepositions with a tightening tolerance / savegrains /
+       writefile), on perturbed starting grains, omega as observed and floated.  Wrappers installed from the harness
+       record set_translation / compute_gv / gof / refine / score_and_assign (arguments, and the label / error arrays
+       after every call) / cImageD11.compute_gv.  For every score_and_assign call the error of that grain on every
+       peak is recomputed by c09_sim (forward model of the harness, ubi and translation the call was made with);
+       TLC validates the call sequence against the protocol rules, every call against the assignment rule, every
+       pass against "owner = strictly smallest error inside the tolerance = generating grain = owner in the run with
+       the other grain order", and the logged outcome (bounds, saved labels / hkl / counts / unindexed file).
 """
 import os, sys, json, io, contextlib, time, types, importlib.util
 import numpy as np
@@ -34,6 +45,12 @@ class Recorder(object):
         self.ng = ngrains
         self.ingof = 0
         self.saved = {}
+        self.obj = None            # the refinegrains object of the run
+        self.last_t = None         # translation the last kernel compute_gv was called with
+        self.calls = []            # per score_and_assign call: ubi, t, tol, label, labels / drlv2 after the call
+        self.passes_at_save = None # score_and_assign calls made when savegrains started
+        self.contested_judged = 0
+        self.contested_later = 0
 
     def tid(self, t):
         key = tuple(float(x) for x in t)
@@ -52,12 +69,17 @@ class Recorder(object):
         rg = self.rg
         cls = rg.refinegrains
         R = self
-        for name in ("set_translation", "compute_gv", "gof", "refine", "refinepositions"):
+        for name in ("set_translation", "compute_gv", "gof", "refine", "refinepositions", "savegrains"):
             self.saved[name] = getattr(cls, name)
         self.saved["c_assign"] = rg.cImageD11.score_and_assign
         self.saved["c_gv"] = rg.cImageD11.compute_gv
 
+        def savegrains(o, filename, sort_npks=True):
+            R.passes_at_save = len(R.calls)
+            return R.saved["savegrains"](o, filename, sort_npks=sort_npks)
+
         def set_translation(o, gr, sc):
+            R.obj = o
             R.saved["set_translation"](o, gr, sc)
             R.ev.append({"k": "settrans", "g": int(gr) + 1, "gt": R.tid(o.grains[(gr, sc)].translation), "pt": R.part(o)})
 
@@ -90,15 +112,22 @@ class Recorder(object):
 
         def c_assign(ubi, gv, tol, drlv2, labels, label):
             reset = bool((labels == -1).all() and (drlv2 == 1).all())
-            R.ev.append({"k": "assign", "label": int(label) + 1, "reset": reset, "tol": tolid(tol)})
-            return R.saved["c_assign"](ubi, gv, tol, drlv2, labels, label)
+            R.ev.append({"k": "assign", "label": int(label) + 1, "reset": reset, "tol": tolid(tol), "call": len(R.calls)})
+            call = {"ubi": np.array(ubi, float), "t": R.last_t, "tol": float(tol), "label": int(label)}
+            R.calls.append(call)
+            try:
+                return R.saved["c_assign"](ubi, gv, tol, drlv2, labels, label)
+            finally:
+                call["labels"] = np.array(labels).copy()
+                call["drlv2"] = np.array(drlv2, float).copy()
 
         def c_gv(xyz, om, sign, wvln, wedge, chi, t, gv):
             R.ev.append({"k": "kernelgv", "t": R.tid(t)})
+            R.last_t = np.array(t, float)
             return R.saved["c_gv"](xyz, om, sign, wvln, wedge, chi, t, gv)
 
-        cls.set_translation, cls.compute_gv, cls.gof, cls.refine, cls.refinepositions = \
-            set_translation, compute_gv, gof, refine, refinepositions
+        cls.set_translation, cls.compute_gv, cls.gof, cls.refine, cls.refinepositions, cls.savegrains = \
+            set_translation, compute_gv, gof, refine, refinepositions, savegrains
         # module-level callables used by assignlabels: wrap through a proxy namespace
         self.proxy = types.SimpleNamespace(**{k: getattr(rg.cImageD11, k) for k in dir(rg.cImageD11) if not k.startswith("__")})
         self.proxy.score_and_assign = c_assign
@@ -108,7 +137,7 @@ class Recorder(object):
 
     def remove(self):
         cls = self.rg.refinegrains
-        for name in ("set_translation", "compute_gv", "gof", "refine", "refinepositions"):
+        for name in ("set_translation", "compute_gv", "gof", "refine", "refinepositions", "savegrains"):
             setattr(cls, name, self.saved[name])
         self.rg.cImageD11 = self.saved["cmod"]
 
@@ -121,103 +150,314 @@ def load_makemap():
     return mod
 
 
-def scenario(chk, k, ngrains, omfloat, mods, tag, notrans=False):
-    """run one simulated scenario through makemap(); returns (trace record, meta)"""
+NTRACK_CONTESTED = 40      # tracked peaks handed to TLC per run: contested ones (capped) ...
+NTRACK_PLAIN = 12          # ... plus uncontested simulated peaks and strays; the others are judged by judge_rest()
+MARGIN_OWN = 0.002         # generator: every simulated peak fits its own starting grain better than any other by this much (|dhkl|)
+MARGIN_TRUE = 0.003        # generator: no other TRUE grain indexes a simulated peak closer than this (second pass: own error ~ 0)
+MARGIN_STRAY = 0.02        # generator: strays stay this far outside the tolerance of every grain (true and starting)
+MIN_CONTESTED = 8          # generator: contested families must produce at least this many contested peaks (start grains)
+FAMILIES = ("random", "subgrain", "twin")
+ORDERS = {"id": lambda n: list(range(n)), "rev": lambda n: list(range(n))[::-1], "rot": lambda n: list(range(1, n)) + [0]}
+
+
+def plan_entry(k, ng, omf, notrans=False, fam="random", order="id", tol=0.05, route="makemap"):
+    return {"scenario": k, "ngrains": ng, "omega_float": bool(omf), "notrans": bool(notrans), "family": fam, "order": order,
+            "tol": tol, "route": route}
+
+
+def generate(sp, mods):
+    """simulated data of one scenario (independent of grain order, route and omega mode).  Rejection sampling keeps the
+    scenario inside the domain where 'the grain that produced the peak' is well posed for the STARTING grains too:
+    see the MARGIN_* constants.  Attempt 0 of the 'random' family is the scenario of the first version of this check."""
     transform, unitcell_mod, parameters, columnfile, grain, rgmod, makemap = mods
-    rng = np.random.default_rng(common.seed() * 1000 + k)
-    pars = c09_sim.make_pars(rng, k)
-    # notrans: the starting grain file carries no #translation lines (first makemap run): every grain starts from the
-    # global t_x, t_y, t_z = 0 of the parameter file, so the true positions are kept within the 30 um start offset
-    uc, grains, tab, worst = c09_sim.simulate(rng, transform, unitcell_mod, pars, ngrains, tmax=(25.0 if notrans else 500.0))
-    if len(tab) < 60 * ngrains or worst > 1e-7:
-        raise common.MachineryError("simulation produced %d peaks (worst forward error %g) for scenario %d" % (len(tab), worst, k))
+    k, ngrains, notrans, fam, tol = sp["scenario"], sp["ngrains"], sp["notrans"], sp["family"], sp["tol"]
+    why = []
+    for attempt in range(60):
+        rng = np.random.default_rng(common.seed() * 1000 + k + 1000003 * attempt)
+        rng2 = np.random.default_rng([common.seed(), k, attempt, FAMILIES.index(fam), 77])
+        pars = c09_sim.make_pars(rng, k)
+        related = None
+        if fam != "random":
+            # grain 1 is related to grain 0 ; with 4 or more grains the last one is related to grain 2 as well
+            related = {1: (0, fam)}
+            if ngrains >= 4:
+                related[ngrains - 1] = (2, fam)
+        # notrans: the starting grain file carries no #translation lines (first makemap run): every grain starts from the
+        # global t_x, t_y, t_z = 0 of the parameter file, so the true positions are kept within the 30 um start offset
+        uc, grains, tab, worst = c09_sim.simulate(rng, transform, unitcell_mod, pars, ngrains, tmax=(25.0 if notrans else 500.0),
+                                                  related=related, rng2=rng2)
+        if len(tab) < 60 * ngrains or worst > 1e-7:
+            raise common.MachineryError("simulation produced %d peaks (worst forward error %g) for scenario %d" % (len(tab), worst, k))
+        perm = rng.permutation(len(tab))
+        tab = tab[perm]
+        # a few stray peaks that belong to no grain: kept only if clearly not indexable by any generating grain
+        # (hkl error > 0.15 in the independent forward model), so that "assigned to the grain that produced it" is well posed
+        nstray = 15
+        stray = []
+        while len(stray) < nstray:
+            cand = np.array([rng.uniform(100, 1900), rng.uniform(100, 1900), rng.uniform(-180, 180)])
+            ok = True
+            for (ubi, t) in grains:
+                gs = c09_sim.forward([cand[0]], [cand[1]], [cand[2]], t, pars)
+                hk = ubi @ gs[0]
+                if np.abs(hk - np.round(hk)).max() < 0.15:
+                    ok = False
+            if ok:
+                stray.append([cand[0], cand[1], cand[2], -1.0, 0.0, 0.0, 0.0])
+        full = np.vstack([tab, np.array(stray)])
+        start = []
+        for (ubi, t) in grains:
+            u0 = ubi @ c09_sim.small_rotation(rng, 2e-3).T
+            t0 = t + rng.uniform(-30, 30, size=3)
+            start.append((u0, None if notrans else t0))
+        # what refinegrains will start from: the grain file is text (%.9g / %g), a missing translation is the global one
+        glob = np.array([pars["t_x"], pars["t_y"], pars["t_z"]])
+        sc, fc, om = full[:, 0], full[:, 1], full[:, 2]
+        e_true = np.sqrt([c09_sim.hkl_errors(sc, fc, om, u, t, pars) for (u, t) in grains])
+        e_start = np.sqrt([c09_sim.hkl_errors(sc, fc, om, u, (glob if t is None else t), pars) for (u, t) in start])
+        gen = full[:, 3].astype(int)
+        simrows = np.nonzero(gen >= 0)[0]
+        own_s = e_start[gen[simrows], simrows]
+        oth_s = e_start[:, simrows].copy()
+        oth_s[gen[simrows], np.arange(len(simrows))] = np.inf
+        oth_t = e_true[:, simrows].copy()
+        oth_t[gen[simrows], np.arange(len(simrows))] = np.inf
+        ncont = int((oth_s.min(axis=0) < tol - 1e-3).sum()) if ngrains > 1 else 0
+        ncont_true = int((oth_t.min(axis=0) < tol - 1e-3).sum()) if ngrains > 1 else 0
+        if own_s.max() >= tol - 0.005:
+            why.append("a simulated peak is not inside the tolerance of its own starting grain")
+        elif ngrains > 1 and (oth_s.min(axis=0) - own_s).min() < MARGIN_OWN:
+            why.append("another starting grain fits a simulated peak as well as its own")
+        elif ngrains > 1 and oth_t.min() < MARGIN_TRUE:
+            why.append("two true grains index the same peak")
+        elif min(e_true[:, gen < 0].min(), e_start[:, gen < 0].min()) < tol + MARGIN_STRAY:
+            why.append("a stray is indexed by a grain")
+        elif fam != "random" and (ncont < MIN_CONTESTED or ncont_true < MIN_CONTESTED // 2):
+            why.append("only %d / %d contested peaks" % (ncont, ncont_true))
+        else:
+            return {"pars": pars, "grains": grains, "start": start, "full": full, "gen": gen, "attempt": attempt,
+                    "ncontested": ncont, "ncontested_true": ncont_true, "e_start": e_start, "e_true": e_true}
+    raise common.MachineryError("no admissible scenario %r in 60 attempts: %s" % (sp, why[-5:]))
+
+
+def tracked_rows(data, tol):
+    """rows followed call by call in TLC: contested ones (inside the tolerance of two grains, starting or true), evenly
+    thinned to NTRACK_CONTESTED, then NTRACK_PLAIN others (simulated and strays).  Depends on the data only, not on the order."""
+    e = np.minimum(data["e_start"], data["e_true"])
+    contested = np.nonzero((e < tol + 1e-3).sum(axis=0) >= 2)[0]
+    if len(contested) > NTRACK_CONTESTED:
+        contested = contested[np.linspace(0, len(contested) - 1, NTRACK_CONTESTED).astype(int)]
+    rest = np.setdiff1d(np.arange(e.shape[1]), contested)
+    plain = rest[np.linspace(0, len(rest) - 1, min(NTRACK_PLAIN - 4, len(rest))).astype(int)] if len(rest) else rest
+    strays = np.nonzero(data["gen"] < 0)[0][:4]
+    return np.unique(np.concatenate([contested, plain, strays])).astype(int)
+
+
+def run_route(sp, mods, files, rec):
+    """drive the code under test: scripts/makemap.py or the calls of a user script (refinegrains API)"""
+    transform, unitcell_mod, parameters, columnfile, grain, rgmod, makemap = mods
+    parfile, fltfile, ubifile, newubi, newflt = files
+    if sp["route"] == "makemap":
+        opts = types.SimpleNamespace(parfile=parfile, fltfile=fltfile, ubifile=ubifile, newubifile=newubi, newfltfile=newflt,
+                                     tthrange=None, latticesymmetry="triclinic", symmetry="triclinic", tol=sp["tol"],
+                                     omega_float=bool(sp["omega_float"]), omega_slop=0.05, sort_npks=False)
+        makemap.makemap(opts)
+        return
+    # "api": assignlabels + refineubis(scoreonly) first, then refinepositions with a tightening tolerance, save, re-assign
+    o = rgmod.refinegrains(OmFloat=bool(sp["omega_float"]), OmSlop=0.05)
+    o.loadparameters(parfile)
+    o.loadfiltered(fltfile)
+    o.readubis(ubifile)
+    o.tolerance = float(sp["tol"])
+    o.generate_grains()
+    o.assignlabels()
+    o.refineubis(quiet=True, scoreonly=True)
+    for tol in (sp["tol"], round(sp["tol"] * 0.6, 4)):
+        o.tolerance = float(tol)
+        rec.ev.append({"k": "usertol", "tol": tolid(tol)})
+        o.refinepositions()
+    o.savegrains(newubi, sort_npks=False)
+    o.scandata[fltfile].writefile(fltfile + ".new")
+    o.assignlabels()
+    col = o.scandata[fltfile].copy()
+    col.filter(col.labels < -0.5)
+    col.writefile(newflt)
+
+
+def read_positions(fltfile, n):
+    """sc, fc, omega of the written peak file, parsed here (not with the columnfile reader)"""
+    titles = None
+    for line in open(fltfile):
+        if line.startswith("#") and "omega" in line.split() and "sc" in line.split():
+            titles = line[1:].split()
+    arr = np.loadtxt(fltfile, comments="#", ndmin=2)
+    if titles is None or arr.shape != (n, len(titles)):
+        raise common.MachineryError("cannot parse the peak file written for the scenario")
+    return tuple(arr[:, titles.index(c)].copy() for c in ("sc", "fc", "omega"))
+
+
+def judge_assignment(data, rec, order, tracked, peer):
+    """fill the assign events with rk / lab / dr for the tracked rows and judge all other rows here with the same
+    definitions.  Returns (passes, py_bad, examples): passes = per pass the owner of every row as a grain identity
+    (-1 none, -2 not judged)."""
+    pars, full, gen = data["pars"], data["full"], data["gen"]
+    sc, fc, om = data["as_written"]          # the peak positions as the text file holds them (what the code read)
+    ng = len(order)
+    place_of = {g: p for p, g in enumerate(order)}
+    evs = [e for e in rec.ev if e["k"] == "assign"]
+    if len(evs) != len(rec.calls) or len(evs) % ng:
+        return None, 1, ["%d score_and_assign calls for %d grains" % (len(evs), ng)]
+    untracked = np.setdiff1d(np.arange(len(full)), tracked)
+    passes, examples, py_bad = [], [], 0
+    for p0 in range(0, len(evs), ng):
+        calls = rec.calls[p0:p0 + ng]
+        tols = set(c["tol"] for c in calls)
+        places = [c["label"] for c in calls]
+        if len(tols) != 1 or sorted(places) != list(range(ng)) or any(c["t"] is None for c in calls):
+            return None, 1, ["pass %d: labels %s tolerances %s" % (p0 // ng, places, sorted(tols))]
+        tol = tols.pop()
+        errs = np.zeros((ng, len(full)))
+        for c in calls:                       # errors by place, from the arguments of the call and the harness's forward model
+            errs[c["label"]] = c09_sim.hkl_errors(sc, fc, om, c["ubi"], c["t"], pars)
+        ranks, owner, blur = c09_sim.owner_table(errs, tol)
+        final = calls[-1]["labels"]
+        inside = (ranks < c09_sim.E_OUT) & ~blur[None, :]
+        rec.contested_judged += int((inside.sum(axis=0) >= 2).sum())
+        rec.contested_later += int(sum(1 for r in np.nonzero(inside.sum(axis=0) >= 2)[0] if inside[owner[r] + 1:, r].any()))
+        ident = np.where(final >= 0, np.array(order + [-1])[np.clip(final, -1, ng - 1)], -1)
+        ident[blur] = -2
+        passes.append(ident)
+        npass = len(passes) - 1
+        # ---- rows not handed to TLC
+        u = untracked[~blur[untracked]]
+        genplace = np.array([place_of.get(g, -1) for g in gen])
+        bad = u[(final[u] != owner[u]) | ((gen[u] >= 0) & (final[u] != genplace[u])) | ((gen[u] < 0) & (final[u] != -1))]
+        if peer is not None and npass < len(peer):
+            pr = peer[npass]
+            bad = np.union1d(bad, u[(pr[u] != -2) & (pr[u] != ident[u])])
+        py_bad += len(bad)
+        for r in bad[:3]:
+            examples.append({"pass": npass, "row": int(r), "label": int(final[r]), "best_place": int(owner[r]),
+                             "generated_by_place": int(genplace[r]), "errors_by_place": [float(x) for x in np.sqrt(errs[:, r])]})
+        # ---- tracked rows: the events carry ranks and the observed arrays after each call
+        for ev, c in zip(evs[p0:p0 + ng], calls):
+            pl = c["label"]
+            rk = np.where(blur[tracked], -1, ranks[pl, tracked])
+            lab = c["labels"][tracked] + 1
+            # stored error after the call -> whose error is it (rank), by value against the independent errors
+            d = c["drlv2"][tracked]
+            dr = np.full(len(tracked), -2, int)
+            dr[d == 1.0] = c09_sim.E_OUT
+            for q in range(ng):
+                e = errs[q, tracked]
+                hit = (np.abs(d - e) <= 1e-6 * e + 1e-12) & (ranks[q, tracked] < c09_sim.E_OUT)
+                dr[hit] = ranks[q, tracked][hit]
+            ev["rk"], ev["lab"], ev["dr"] = [int(x) for x in rk], [int(x) for x in lab], [int(x) for x in dr]
+            del ev["call"]
+    return passes, py_bad, examples
+
+
+def scenario(chk, sp, mods, tag, data=None, peer=None):
+    """run one simulated scenario; returns (trace record, meta, per-pass owners)"""
+    transform, unitcell_mod, parameters, columnfile, grain, rgmod, makemap = mods
+    if data is None:
+        data = generate(sp, mods)
+    ngrains, notrans = sp["ngrains"], sp["notrans"]
+    pars, grains, full, gen = data["pars"], data["grains"], data["full"], data["gen"]
+    order = ORDERS[sp["order"]](ngrains)          # place p of the ubi file holds grain order[p]
     d = os.path.join(common.scratch(), "c09_%s" % tag)
     os.makedirs(d, exist_ok=True)
     parfile, fltfile, ubifile = [os.path.join(d, n) for n in ("sim.par", "sim.flt", "start.map")]
     newubi, newflt = os.path.join(d, "out.map"), os.path.join(d, "out_unindexed.flt")
     po = parameters.parameters(**pars)
     po.saveparameters(parfile)
-    perm = rng.permutation(len(tab))
-    tab = tab[perm]
-    # a few stray peaks that belong to no grain: kept only if clearly not indexable by any generating grain
-    # (hkl error > 0.15 in the independent forward model), so that "assigned to the grain that produced it" is well posed
-    nstray = 15
-    stray = []
-    while len(stray) < nstray:
-        cand = np.array([rng.uniform(100, 1900), rng.uniform(100, 1900), rng.uniform(-180, 180)])
-        ok = True
-        for (ubi, t) in grains:
-            gs = c09_sim.forward([cand[0]], [cand[1]], [cand[2]], t, pars)
-            hk = ubi @ gs[0]
-            if np.abs(hk - np.round(hk)).max() < 0.15:
-                ok = False
-        if ok:
-            stray.append([cand[0], cand[1], cand[2], -1.0, 0.0, 0.0, 0.0])
-    stray = np.array(stray)
-    full = np.vstack([tab, stray])
     cf = columnfile.colfile_from_dict({"sc": full[:, 0].copy(), "fc": full[:, 1].copy(), "omega": full[:, 2].copy(),
                                        "Number_of_pixels": np.full(len(full), 10.0), "avg_intensity": np.full(len(full), 100.0),
                                        "sum_intensity": np.full(len(full), 1000.0), "spot3d_id": np.arange(len(full), dtype=float)})
     cf.parameters = po
     cf.writefile(fltfile)
-    start = []
-    for (ubi, t) in grains:
-        u0 = ubi @ c09_sim.small_rotation(rng, 2e-3).T
-        t0 = t + rng.uniform(-30, 30, size=3)
-        start.append(grain.grain(u0, translation=(None if notrans else t0)))
-    grain.write_grain_file(ubifile, start)
-    opts = types.SimpleNamespace(parfile=parfile, fltfile=fltfile, ubifile=ubifile, newubifile=newubi, newfltfile=newflt,
-                                 tthrange=None, latticesymmetry="triclinic", symmetry="triclinic", tol=0.05,
-                                 omega_float=bool(omfloat), omega_slop=0.05, sort_npks=False)
+    data["as_written"] = read_positions(fltfile, len(full))
+    grain.write_grain_file(ubifile, [grain.grain(data["start"][g][0], translation=data["start"][g][1]) for g in order])
     rec = Recorder(rgmod, ngrains)
     rec.install()
     err = None
     try:
         with contextlib.redirect_stdout(io.StringIO()):
-            makemap.makemap(opts)
+            run_route(sp, mods, (parfile, fltfile, ubifile, newubi, newflt), rec)
     except Exception as e:           # noqa
         import traceback
         err = "%r\n%s" % (e, traceback.format_exc()[-800:])
     finally:
         rec.remove()
-    meta = {"scenario": k, "ngrains": ngrains, "omega_float": bool(omfloat), "notrans": bool(notrans), "seed": common.seed(), "npeaks": int(len(tab)),
-            "pars": {kk: pars[kk] for kk in ("o11", "o12", "o21", "o22", "omegasign", "tilt_x", "tilt_y", "tilt_z", "wedge", "chi", "distance")}}
+    meta = dict(sp, seed=common.seed(), npeaks=int((gen >= 0).sum()), attempt=data["attempt"], ncontested=data["ncontested"],
+                pars={kk: pars[kk] for kk in ("o11", "o12", "o21", "o22", "omegasign", "tilt_x", "tilt_y", "tilt_z", "wedge", "chi", "distance")})
     if err:
-        chk.violation("makemap raised on simulated data: %s" % err.splitlines()[0], dict(meta, traceback=err))
-        return None, meta
+        chk.violation("refinement raised on simulated data: %s" % err.splitlines()[0], dict(meta, traceback=err))
+        return None, meta, None
+    # ---- assignment, call by call
+    tracked = tracked_rows(data, sp["tol"])
+    passes, py_bad, examples = judge_assignment(data, rec, order, tracked, peer)
+    if passes is None:
+        chk.violation("assignment passes of the run cannot be delimited: %s" % examples[0], dict(meta, detail=examples))
+        return None, meta, None
+    meta["assignment_examples"] = examples
     # ---- outcome
     out = grain.read_grain_file(newubi)
     flt = columnfile.columnfile(fltfile + ".new")
+    # the columnfile rows keep the order written (writefile/readfile preserve rows): asserted via spot3d_id
+    if not np.array_equal(flt.spot3d_id, np.arange(len(full))):
+        raise common.MachineryError("row order of the saved peak file changed; cannot align with the simulation")
     dubi, dt, bubi = [], [], []
     files_ok = len(out) == ngrains
-    labels_ok = hkl_ok = True
-    for g, (ubi, t) in enumerate(grains):
-        if g >= len(out):
+    labels_ok = hkl_ok = npks_ok = True
+    for p, g in enumerate(order):                # sort_npks=False keeps the order of the input grains
+        ubi, t = grains[g]
+        if p >= len(out):
             dubi.append(10 ** 9)
             dt.append(10 ** 9)
             bubi.append(0)
             continue
-        og = out[g]          # sort_npks=False keeps the order of the input grains
+        og = out[p]
         dubi.append(int(np.ceil(np.abs(og.ubi - ubi).max() * 1e9)))
         bubi.append(int(BOUND_UBI_REL * np.abs(ubi).max() * 1e9))
         dt.append(int(np.ceil(np.abs(np.asarray(og.translation) - t).max() * 1e3)))      # nanometres
-        sel = full[:, 3] == g
-        ids = full[sel, :]
-        lab = flt.labels[np.searchsorted(flt.spot3d_id, np.arange(len(full))[sel])] if False else flt.labels[sel]
-        if not (lab == g).all():
+        sel = gen == g
+        if not (flt.labels[sel] == p).all():
             labels_ok = False
-        if not (np.array_equal(flt.h[sel], ids[:, 4]) and np.array_equal(flt.k[sel], ids[:, 5]) and np.array_equal(flt.l[sel], ids[:, 6])):
+        if not (np.array_equal(flt.h[sel], full[sel, 4]) and np.array_equal(flt.k[sel], full[sel, 5]) and np.array_equal(flt.l[sel], full[sel, 6])):
             hkl_ok = False
-    if (flt.labels[full[:, 3] < 0] >= 0).any():
+        # the per-grain peak list of the saved grain file: its count, and the name that ties it to the label
+        try:
+            if int(og.npks) != int(sel.sum()) or int(str(og.name).split(":")[0]) != p:
+                npks_ok = False
+        except (AttributeError, ValueError):
+            npks_ok = False
+    if (flt.labels[gen < 0] >= 0).any():
         labels_ok = False
-    # the columnfile rows keep the order written (writefile/readfile preserve rows): asserted via spot3d_id
-    if not np.array_equal(flt.spot3d_id, np.arange(len(full))):
-        raise common.MachineryError("row order of the saved peak file changed; cannot align with the simulation")
+    # saved label column = labels the kernel left after the last pass before savegrains
+    nsave = rec.passes_at_save
+    saved_ok = bool(nsave) and nsave % ngrains == 0 and np.array_equal(flt.labels.astype(int), rec.calls[nsave - 1]["labels"])
+    # labels column of scandata after the last assignlabels = labels the kernel left
+    sd = rec.obj.scandata[fltfile]
+    if not np.array_equal(np.asarray(sd.labels).astype(int), rec.calls[-1]["labels"]):
+        saved_ok = False
+    # file of unindexed peaks (written after the last pass): exactly the rows nobody owns = the strays
+    try:
+        un = columnfile.columnfile(newflt)
+        unids = np.sort(un.spot3d_id.astype(int)) if un.nrows else np.zeros(0, int)
+    except Exception:      # noqa  (an empty selection cannot be written / read back)
+        unids = np.zeros(0, int)
+    unindexed_ok = np.array_equal(unids, np.nonzero(rec.calls[-1]["labels"] < 0)[0]) and np.array_equal(unids, np.nonzero(gen < 0)[0])
     p0 = po.parameters
-    record = {"id": tag, "NG": ngrains, "utol": tolid(0.05),
+    genplace = {g: p for p, g in enumerate(order)}
+    record = {"id": tag, "NG": ngrains, "utol": tolid(sp["tol"]),
               "gt0": [0] * ngrains, "pt0": 0, "ev": None,
               "dubi": dubi, "bubi": bubi, "dt": dt, "bt": int(BOUND_T * 1e3),
-              "labels_ok": bool(labels_ok), "hkl_ok": bool(hkl_ok), "files_ok": bool(files_ok)}
+              "labels_ok": bool(labels_ok), "hkl_ok": bool(hkl_ok), "files_ok": bool(files_ok),
+              "saved_ok": bool(saved_ok), "npks_ok": bool(npks_ok), "unindexed_ok": bool(unindexed_ok), "py_bad": int(py_bad),
+              "NT": int(len(tracked)), "gen": [genplace[g] + 1 if g >= 0 else 0 for g in gen[tracked]],
+              "ident": [g + 1 for g in order],
+              "peer": [[int(x) + 1 if x >= 0 else (0 if x == -1 else -1) for x in pr[tracked]] for pr in (peer or [])]}
     # initial translation ids: as read from the start file (values after the %g text round trip)
     st = grain.read_grain_file(ubifile)
     glob_t = (p0["t_x"], p0["t_y"], p0["t_z"])
@@ -227,7 +467,11 @@ def scenario(chk, k, ngrains, omfloat, mods, tag, notrans=False):
     meta["max_dubi"] = max(dubi) / 1e9
     meta["max_dt_um"] = max(dt) / 1e3
     meta["events"] = len(rec.ev)
-    return record, meta
+    meta["tracked"] = int(len(tracked))
+    meta["passes"] = len(passes)
+    meta["contested_judged"] = rec.contested_judged       # (row, pass) pairs with two grains inside the tolerance, judged
+    meta["contested_later_listed"] = rec.contested_later  # ... of which a grain listed after the owner is inside the tolerance
+    return record, meta, passes
 
 
 def validate(chk, recs, tag):
@@ -254,32 +498,51 @@ def run(tier, replay=None):
     from ImageD11 import transform, unitcell as unitcell_mod, parameters, columnfile, grain, refinegrains as rgmod
     makemap = load_makemap()
     mods = (transform, unitcell_mod, parameters, columnfile, grain, rgmod, makemap)
-    chk.rule = ("RefineFlow.tla explored over every sequence of public calls (2-3 grains); real runs: scenario k selects flip "
+    chk.rule = ("RefineFlow.tla explored over every sequence of public calls, every error table of 1-2 peaks and every order of the ubi "
+                "file (2-3 grains); real runs: scenario k selects flip "
                 "k mod 8 and switches tilt_x/y/z, chi, wedge, omegasign from the bits of k; 1..5 fcc grains with strain <= 5e-3, "
                 "position +-0.5 mm, start perturbed by 2 mrad / up to 30 um per axis, 15 stray peaks, omega as observed and floated; "
-                "non-trivial = >= 2 grains or a non-default geometry switch; distinct = (scenario, grains, omega mode)")
+                "families random / subgrain / twin (the last two produce peaks inside the tolerance of two grains and are run with two "
+                "grain orders); routes makemap() and the refinegrains calls of a user script; every score_and_assign call judged on every peak "
+                "(tracked sample in TLC, the rest by the harness with the same definitions); "
+                "non-trivial = >= 2 grains or a non-default geometry switch; distinct = (scenario, grains, omega mode, family, order, tolerance, route)")
     chk.assumptions = ["peaks generated with the library's inverse functions but each validated by an independent forward model (1e-7)",
                        "bounds: |dUBI| <= 1e-5 max|UBI|, |dt| <= 10 um (0.2 pixel; start offset up to 30 um per axis, as fixed in DESIGN.md), exact labels and hkl",
-                       "convergence of the simplex is observed, not modelled"]
+                       "convergence of the simplex is observed, not modelled",
+                       "hkl errors of every grain on every peak recomputed by the harness's forward model from the ubi / translation each score_and_assign "
+                       "call was made with; a peak is not judged in a pass when two errors (or an error and tol^2) agree to 1e-6 relative",
+                       "scenario generator (rejection sampling): every simulated peak fits its own starting grain better than any other by 0.002 in |dhkl|, "
+                       "no other true grain within 0.003, strays 0.02 outside every tolerance"]
+    E = plan_entry
     if replay:
         case = json.load(open(replay))["case"]
         os.environ["VERIF_SEED"] = str(case.get("seed", 0))
-        plan = [(case["scenario"], case["ngrains"], case["omega_float"], case.get("notrans", False))]
+        plan = [E(case["scenario"], case["ngrains"], case["omega_float"], case.get("notrans", False), case.get("family", "random"),
+                  case.get("order", "id"), case.get("tol", 0.05), case.get("route", "makemap"))]
     elif tier == "quick":
-        plan = [(9, 2, False), (38, 3, True), (63, 2, False), (20, 1, True), (5, 4, False), (14, 2, True), (27, 5, False),
-                (33, 2, True), (42, 3, False), (51, 1, False), (60, 2, True), (7, 3, True), (48, 2, False), (31, 2, True),
-                (11, 3, False, True), (52, 2, True, True), (29, 4, False, True)]
+        plan = [E(9, 2, False), E(38, 3, True), E(63, 2, False), E(20, 1, True), E(5, 4, False), E(14, 2, True), E(27, 5, False),
+                E(33, 2, True), E(42, 3, False), E(51, 1, False), E(60, 2, True), E(7, 3, True), E(48, 2, False), E(31, 2, True),
+                E(11, 3, False, True), E(52, 2, True, True), E(29, 4, False, True),
+                # the refinegrains calls of a user script (tolerance tightened between two position refinements)
+                E(22, 3, False, route="api"), E(45, 2, True, route="api"),
+                # contested peaks: every one of these is run with the grains listed in two orders
+                E(9, 2, False, fam="subgrain"), E(38, 3, True, fam="subgrain", order="rot"), E(5, 4, False, fam="subgrain", route="api"),
+                E(14, 2, True, fam="twin"), E(27, 5, False, fam="twin"), E(42, 3, False, fam="twin", route="api", order="rot"),
+                E(60, 2, True, fam="subgrain", tol=0.04)]
     else:
         plan = []
         rng = np.random.default_rng(common.seed() + 9)
         for k in range(0, 64):
             ng = int(rng.integers(1, 6))
-            plan.append((k, ng, False))
-            plan.append((k, ng, True))
+            plan.append(E(k, ng, False, route=("api" if k % 5 == 2 else "makemap")))
+            plan.append(E(k, ng, True, route=("api" if k % 5 == 3 else "makemap")))
             if k % 4 == 1:
-                plan.append((k, max(2, ng), bool(k % 8 == 1), True))
-    for c, cover in (("RefineFlow_q", True), ("RefineFlow_t", False)) if tier == "thorough" else (("RefineFlow_q", True),):
-        res = common.run_tlc("RefineFlow", os.path.join(common.SPECS, c + ".cfg"), workers=16, timeout=900, coverage=cover)
+                plan.append(E(k, max(2, ng), bool(k % 8 == 1), True))
+            if k % 2 == 0:
+                plan.append(E(k, max(2, ng), bool(k % 4 == 0), fam=("subgrain", "twin")[(k // 2) % 2], order=("rev", "rot")[(k // 4) % 2],
+                              tol=(0.05, 0.04)[(k // 8) % 2], route=("makemap", "api")[(k // 16) % 2]))
+    for c, cover in (("RefineFlow_q", True), ("RefineFlow_t", False), ("RefineFlow_t2", False)) if tier == "thorough" else (("RefineFlow_q", True),):
+        res = common.run_tlc("RefineFlow", os.path.join(common.SPECS, c + ".cfg"), workers=16, timeout=1800, coverage=cover)
         chk.add_tlc(c, res, require_cover=(("AssignScore", "RPGof", "RPStore", "PGComputeGv", "PGUse") if cover else ()))
         if res.violated:
             raise common.MachineryError("RefineFlow model violates %s" % res.violated)
@@ -287,17 +550,35 @@ def run(tier, replay=None):
     chk.add_tlc("RefineFlow DROP_SETT (expected: NoBad violated)", res)
     if not res.violated:
         raise common.MachineryError("seeded protocol defect not detected by the model (vacuity)")
+    res = common.run_tlc("RefineFlow", os.path.join(common.SPECS, "RefineFlow_bug2.cfg"), workers=16, timeout=900)
+    chk.add_tlc("RefineFlow LAST_WINS (expected: BestOwner violated)", res)
+    if "BestOwner" not in res.violated:
+        raise common.MachineryError("seeded assignment defect (last grain listed wins) not detected by the model (vacuity)")
     recs, metas = [], {}
-    for i, pl in enumerate(plan):
-        k, ng, omf = pl[:3]
-        notrans = len(pl) > 3 and pl[3]
-        tag = "s%d" % i
-        rec, meta = scenario(chk, k, ng, omf, mods, tag, notrans=notrans)
-        metas[tag] = meta
-        nontrivial = ng >= 2 or any(meta["pars"][x] != 0 for x in ("tilt_x", "tilt_y", "tilt_z", "wedge", "chi"))
-        chk.case((k, ng, omf, notrans), nontrivial=nontrivial)
-        if rec is not None:
-            recs.append(rec)
+    ncont = nlater = 0
+    for i, sp in enumerate(plan):
+        contested = sp["family"] != "random"
+        data = generate(sp, mods)
+        runs = [dict(sp, order="id")]
+        if contested or sp["order"] != "id":
+            runs.append(dict(sp, order=("rev" if sp["order"] == "id" else sp["order"])))
+        peer = None
+        for j, rs in enumerate(runs):
+            tag = "s%d%s" % (i, "ab"[j])
+            rec, meta, passes = scenario(chk, rs, mods, tag, data=data, peer=peer)
+            metas[tag] = meta
+            nontrivial = rs["ngrains"] >= 2 or any(meta["pars"][x] != 0 for x in ("tilt_x", "tilt_y", "tilt_z", "wedge", "chi"))
+            chk.case(tuple(sorted(rs.items())), nontrivial=nontrivial)
+            if rec is not None:
+                recs.append(rec)
+                ncont += meta["contested_judged"]
+                nlater += meta["contested_later_listed"]
+            if j == 0:
+                peer = passes
+    if not replay and (ncont < 100 or nlater < 30):
+        raise common.MachineryError("vacuity: only %d contested (peak, pass) pairs judged, %d with a later-listed competitor" % (ncont, nlater))
+    chk.notes["contested_peak_passes_judged"] = ncont
+    chk.notes["contested_with_later_listed_competitor"] = nlater
     verdicts = validate(chk, recs, "runs")
     for r in recs:
         v = verdicts[r["id"]]
@@ -331,8 +612,41 @@ def selftest(chk=None, recs=None):
     bad3["id"] = "bad3"
     j = next(i for i, e in enumerate(bad3["ev"]) if e["k"] == "assign")
     bad3["ev"][j]["reset"] = False                # assignment pass without reset
+    extra = []
+    # the assignment rule: a contested tracked peak handed to the later-listed, worse-fitting grain / a changed owner in the
+    # run with the other grain order / a mislabelled untracked peak must all be rejected
+    for r in recs:
+        hit = None
+        for i, e in enumerate(r["ev"]):
+            if e["k"] == "assign" and "rk" in e:
+                ks = [k for k in range(r["NT"]) if 0 < e["rk"][k] < 99 and e["lab"][k] != e["label"]]
+                if ks:
+                    hit = (i, ks[0])
+                    break
+        if hit and r["peer"]:
+            bad4 = json.loads(json.dumps(r))
+            bad4["id"] = "bad4"
+            bad4["ev"][hit[0]]["lab"][hit[1]] = bad4["ev"][hit[0]]["label"]        # the last grain inside the tolerance took it
+            bad5 = json.loads(json.dumps(r))
+            bad5["id"] = "bad5"
+            k = next(k for k in range(r["NT"]) if r["peer"][0][k] > 0)
+            bad5["peer"][0][k] = r["peer"][0][k] % r["NG"] + 1                      # the other run gave the peak to another grain
+            bad6 = json.loads(json.dumps(r))
+            bad6["id"] = "bad6"
+            bad6["py_bad"] = 1
+            bad7 = json.loads(json.dumps(r))
+            bad7["id"] = "bad7"
+            bad7["ev"][hit[0]]["dr"][hit[1]] = bad7["ev"][hit[0]]["rk"][hit[1]]     # stored error is the worse grain's
+            good = json.loads(json.dumps(r))
+            good["id"] = "good4"
+            extra = [good, bad4, bad5, bad6, bad7]
+            break
+    if chk is not None and chk.tier == "thorough" and not extra:
+        raise common.MachineryError("selftest: no run with a contested tracked peak and a peer run")
     tmp = common.Check(PROP, "quick")
-    v = validate(tmp, [base, bad1, bad2, bad3], "selftest")
+    v = validate(tmp, [base, bad1, bad2, bad3] + extra, "selftest")
+    if extra and (not v[extra[0]["id"]]["ok"] or any(v[b["id"]]["ok"] for b in extra[1:])):
+        raise common.MachineryError("selftest: assignment rule not binding: %s" % {b["id"]: v[b["id"]] for b in extra})
     if chk is not None:
         chk.states += tmp.states
         chk.transitions += tmp.transitions
